@@ -4,6 +4,8 @@ import (
 	"bytes"
 	"fmt"
 	"strings"
+	"sync"
+	"sync/atomic"
 
 	"github.com/robfig/soy"
 	"github.com/robfig/soy/data"
@@ -30,6 +32,17 @@ func bundleSources(b *ref.Bundle, lay ref.Layout) []srcFile {
 }
 
 func toData(v ref.Value) data.Value {
+	return toDataID(v, map[int]data.Value{})
+}
+
+// toDataID converts preserving instance identity: two reference values with the
+// same ID become the same data.List / data.Map instance.
+func toDataID(v ref.Value, seen map[int]data.Value) data.Value {
+	if v.ID != 0 {
+		if x, ok := seen[v.ID]; ok {
+			return x
+		}
+	}
 	switch v.K {
 	case ref.KUndef:
 		return data.Undefined{}
@@ -46,13 +59,19 @@ func toData(v ref.Value) data.Value {
 	case ref.KList:
 		l := make(data.List, len(v.L))
 		for i, x := range v.L {
-			l[i] = toData(x)
+			l[i] = toDataID(x, seen)
+		}
+		if v.ID != 0 {
+			seen[v.ID] = l
 		}
 		return l
 	case ref.KMap:
 		m := make(data.Map, len(v.Keys))
 		for _, k := range v.Keys {
-			m[k] = toData(v.M[k])
+			m[k] = toDataID(v.M[k], seen)
+		}
+		if v.ID != 0 {
+			seen[v.ID] = m
 		}
 		return m
 	}
@@ -61,8 +80,9 @@ func toData(v ref.Value) data.Value {
 
 func toDataMap(m map[string]ref.Value) data.Map {
 	out := make(data.Map, len(m))
+	seen := map[int]data.Value{}
 	for k, v := range m {
-		out[k] = toData(v)
+		out[k] = toDataID(v, seen)
 	}
 	return out
 }
@@ -87,9 +107,27 @@ func compile(files []srcFile, globals map[string]ref.Value) (*soyhtml.Tofu, erro
 	return b.CompileToTofu()
 }
 
+var renderBudgetOnce sync.Once
+
+// armRenderBudget bounds the work of one render through the walk / range-loop hooks:
+// generated programs need far fewer than 10^6 steps; exceeding 10^7 aborts the worker
+// with a violation naming the loop.
+func armRenderBudget() {
+	renderBudgetOnce.Do(func() {
+		soyhtml.VerifOverBudget = func(kind string, steps int64) {
+			site := repoSite(2)
+			fw.Abort(97, "render-budget@"+site, fmt.Sprintf("render exceeded 10^7 %s steps at %s: a loop runs unboundedly on finite data", kind, site), nil)
+		}
+	})
+	atomic.StoreInt64(&soyhtml.VerifWalkSteps, 0)
+	atomic.StoreInt64(&soyhtml.VerifWorkSteps, 0)
+	atomic.StoreInt64(&soyhtml.VerifWorkLimit, 10000000)
+}
+
 // render runs the real renderer; the data map is converted freshly each time.
 func render(tofu *soyhtml.Tofu, entry string, d map[string]ref.Value, ij *ref.Value, msgs soymsg.Bundle) (string, error) {
 	var buf bytes.Buffer
+	armRenderBudget()
 	r := tofu.NewRenderer(entry)
 	if ij != nil {
 		r.Inject(toData(*ij).(data.Map))
